@@ -1,6 +1,7 @@
 package govc
 
 import (
+	"go/constant"
 	"sort"
 	"fmt"
 	"go/types"
@@ -150,7 +151,7 @@ func callTargets(c *ssa.CallCommon) []string {
 // noteCalled maintains the per-path flags behind called("NAME"): true once a call whose target
 // matches NAME has been executed on the path.
 func (fc *FnCtx) noteCalled(c *ssa.CallCommon, st *State) {
-	if (len(fc.calledNames) == 0 && len(fc.calledPairs) == 0) || fc.pureMode {
+	if (len(fc.calledNames) == 0 && len(fc.calledPairs) == 0 && len(fc.calledWith) == 0) || fc.pureMode {
 		return
 	}
 	match := func(n string) bool {
@@ -180,6 +181,35 @@ func (fc *FnCtx) noteCalled(c *ssa.CallCommon, st *State) {
 			fc.heapSet(st, "called:"+n, fc.tb.True())
 		}
 	}
+	// calledWith("NAME", N, "literal"): a call of NAME whose N-th argument is that string constant
+	for _, k := range sortedStrs(fc.calledWith) {
+		w := fc.calledWith[k]
+		if !match(w.name) || w.arg >= len(c.Args) {
+			continue
+		}
+		if cst, ok := c.Args[w.arg].(*ssa.Const); ok && cst.Value != nil && cst.Value.Kind() == constant.String && constant.StringVal(cst.Value) == w.lit {
+			fc.heapSet(st, "calledwith:"+k, fc.tb.True())
+		}
+	}
+}
+
+type calledWithSpec struct {
+	name string
+	arg  int
+	lit  string
+}
+
+func (fc *FnCtx) calledWithFlag(st *State, name string, arg int, lit string) *Term {
+	k := fmt.Sprintf("%s|%d|%s", name, arg, lit)
+	if fc.calledWith == nil {
+		fc.calledWith = map[string]calledWithSpec{}
+	}
+	if _, ok := fc.calledWith[k]; !ok {
+		fc.calledWith[k] = calledWithSpec{name, arg, lit}
+		fc.newKey = true
+	}
+	fc.hyps = append(fc.hyps, fc.tb.Not(fc.tb.Const("h0!calledwith:"+k, "Bool")))
+	return fc.heapGet(st, "calledwith:"+k, "Bool")
 }
 
 // calledAfterFlag: value of calledAfter("X","Y"): some call of X was executed after a call of Y
